@@ -11,6 +11,12 @@ for d in sorted(os.listdir(f'{V}/seeded')):
         continue
     if ONLY and d not in ONLY:
         continue
+    try:
+        if 'retired' in json.load(open(p + '/meta.json')):
+            res[d] = {'retired': True}
+            continue
+    except Exception:
+        pass
     pid = d.split('-')[1][:3] if d.startswith('REVERT') else d.split('-')[0]
     checks = [pid] + EXTRA.get(d, [])
     r = subprocess.run([f'{V}/tools/try_seed.py', p, '--checks', ','.join(checks)], capture_output=True, text=True)
